@@ -109,7 +109,10 @@ def main():
         g1 = [2, 1, 1, 3, 3, 3, 1, 2, 2]
         g2 = [1, 1, 2, 2, 2, 3, 3, 3, 3]
         g3 = [5] * 9
-        empty = [[("g", "int", []), ("x", narrow or k, [])]]      # a frame left with no rows (e.g. after a filter that matched nothing)
+        empty = [[("g", "int", []), ("x", narrow or k, [])]]
+        if k in ("float", "date", "datetime") and (narrow or "") not in ("int_be",):
+            # a column that is missing throughout: every group yields the helper's default
+            empty = empty + [[("g", "int", [1, 1, 2, 2, 3, 3]), ("x", narrow or k, [None] * 6)]]      # a frame left with no rows (e.g. after a filter that matched nothing)
         if narrow:
             # the same layouts in a narrower / differently-united dtype of the same family
             if narrow.startswith("datetime_") and narrow != "datetime_be":
